@@ -58,6 +58,12 @@ def check(tier, seed):
             for n in range(0, 6):
                 for g in gen.all_graphs(n): cases.append(gen.graph_tokens(g))
         io = lib.run_lines([exe], cases)
+        # a long history of ForestIndex constructions by ONE thread of ONE process (state surviving between calls; gen.history_plan)
+        import random
+        nshort, nh = len(cases), (70000 if tier == "quick" else 140000)
+        hist = [gen.graph_tokens(g) for g in gen.history_graphs(random.Random(seed * 7919 + 16), nh)]
+        c.extra["long_history_calls"] = nh
+        cases, io = cases + hist, io + lib.run_lines([exe], hist, par=1)
         mcases = []
         for cs, o in zip(cases, io):
             f = lib.fields(o, KEYS)
@@ -78,14 +84,17 @@ def check(tier, seed):
             key = why is not None
             if rep.get(key, 0) >= 2: continue
             rep[key] = rep.get(key, 0) + 1
+            hd = {"history": {"seed": seed, "ncalls": nh, "index": i - nshort}} if i >= nshort else {}
             if why:
-                c.violation("ForestIndex: " + why, {"component": "c16", "case": cases[i], "impl": io[i], "model": mo[i], "model_case": mcases[i]}, True)
+                c.violation("ForestIndex: " + why + (" (call %d of a single-thread history of constructions)" % (i - nshort + 1) if hd else ""),
+                            dict({"component": "c16", "case": cases[i], "impl": io[i], "model": mo[i], "model_case": mcases[i]}, **hd), True)
             else:
                 c.violation("correspondence c16 (ForestIndex/spanning_forest vs model under the recovered root order) no longer checks; the implementation's answer still satisfies the property text",
                             {"component": "c16", "theorem_or_correspondence": "correspondence c16: extracted create_index/spanning_forest vs harness/c16.cpp",
-                             "case": cases[i], "impl": io[i], "model": mo[i], "model_case": mcases[i]}, False)
+                             "case": cases[i], "impl": io[i], "model": mo[i], "model_case": mcases[i], **hd}, False)
         # independent of the model: judge every implementation answer (cheap)
-        extra = [i for i in range(len(cases)) if i not in set(bad) and judge(cases[i], io[i])]
+        badset = set(bad)
+        extra = [i for i in range(nshort) if i not in badset and judge(cases[i], io[i])]
         for i in extra[:2]:
             c.violation("ForestIndex: " + judge(cases[i], io[i]), {"component": "c16", "case": cases[i], "impl": io[i]}, True)
     return c.finish(
@@ -100,7 +109,14 @@ def replay(path):
     lib.ensure_model()
     exe, err = lib.build_cpp(name="c16", srcs=["c16.cpp"])
     line = r["case"]
-    i = lib.run_lines([exe], [line], par=1)[0]
+    if "history" in r:       # the failure needs the calls made before it by the same thread: regenerate the stream and run its prefix
+        import random
+        h = r["history"]
+        hist = [gen.graph_tokens(g) for g in gen.history_graphs(random.Random(h["seed"] * 7919 + 16), h["ncalls"])][:h["index"] + 1]
+        assert hist[-1] == line, "history stream not reproducible"
+        i = lib.run_lines([exe], hist, par=1)[-1]
+    else:
+        i = lib.run_lines([exe], [line], par=1)[0]
     roots = lib.fields(i, KEYS).get("ROOTS", [])
     m = lib.run_model("c16", ["%s %d %s" % (line, len(roots), " ".join(roots))], par=1)[0]
     why = judge(line, i)
